@@ -1,4 +1,4 @@
-import Sigc.Lemmas.RefineStepAll
+import Sigc.Lemmas.RefineMutual
 /-!
 # Refinement: the mechanism model `P` (`Sigc.Model`) is simulated by the statement-level specification
 `S'` = `Sigc.Spec` run with `k1 := true, k2 := true` (the specification with the two known findings
@@ -32,5 +32,61 @@ example : ∀ s' r, Model.stepSimple ({} : St) (.newG 1 (some .V)) = some (s', r
     ∃ t' r', Spec.stepSimple ({ k1 := true, k2 := true } : Spec.LSt) (.newG 1 (some .V)) = some (t', r') ∧
       R s' t' ∧ ResAllows r' r :=
   (step_simulates (.newG 1 (some .V)) Emit.inv_init init_related (fun _ i => by simp [Emit.execOf])).1
+
+/-- **stages 2–4 — the refinement theorem, with the final states**: every terminating run of every
+    program on the mechanism model is matched, with the same fuel, by a run of the specification with
+    both known findings reproduced, ending in a related state (in particular `Allows t.trace s.trace`);
+    the model's final state satisfies the all-history invariant. -/
+theorem refines_state (fuel : Nat) (P : Prog) (s : St) (h : Model.runTop fuel P {} P.top = some s) :
+    ∃ t, Spec.runTop fuel P { k1 := true, k2 := true } P.top = some t ∧ R s t ∧ Emit.Inv s :=
+  let ⟨t, ht, hR⟩ := runTop_sim fuel P P.top {} _ s Emit.inv_init init_related quiet_init h
+  ⟨t, ht, hR, (Emit.runTop_good fuel P {} P.top s Emit.inv_init h).inv⟩
+
+/-- **the refinement theorem**: for every fuel and program, if the mechanism model's run terminates
+    in `s`, some run of the specification `S'` (`k1 := true, k2 := true`) terminates in a `t` whose
+    trace allows the model's trace, event by event (equal, or `*` in the specification for a result the
+    statements leave open). -/
+theorem refines (fuel : Nat) (P : Prog) (s : St) (h : Model.runTop fuel P {} P.top = some s) :
+    ∃ fuel' t, Spec.runTop fuel' P { k1 := true, k2 := true } P.top = some t ∧ Allows t.trace s.trace :=
+  let ⟨t, ht, hR, _⟩ := refines_state fuel P s h
+  ⟨fuel, t, ht, hR.trace⟩
+
+/-- a concrete program with a re-entrant emission: slot body 1 disconnects its own connection, emits
+    the signal again and asks for its size -/
+def exProg : Prog :=
+  { bodies := [(1, [⟨"disc 1", .disc 1⟩, ⟨"emit 1 0", .emit 1 0 .sum false⟩, ⟨"size? 1", .sizeq 1⟩])],
+    top := [⟨"newG 1 V", .newG 1 (some .V)⟩, ⟨"connfn 1 1 fn 1", .connfn 1 1 (.fn 1) false⟩,
+            ⟨"connfn 2 1 fn 2", .connfn 2 1 (.fn 2) true⟩, ⟨"emit 1 7", .emit 1 7 .sum false⟩] }
+
+/-- the theorem applies to all runs of `exProg` -/
+example : ∀ fuel s, Model.runTop fuel exProg {} exProg.top = some s →
+    ∃ fuel' t, Spec.runTop fuel' exProg { k1 := true, k2 := true } exProg.top = some t ∧ Allows t.trace s.trace :=
+  fun fuel s h => refines fuel exProg s h
+
+/-- the slot invocations logged in a trace: `(depth, functor, argument)` in order (newest first) -/
+def calls (tr : List Event) : List (Nat × Nat × Nat) :=
+  tr.filterMap (fun e => match e with
+    | .call d fid a => some (d, fid, a)
+    | .res _ _ _ => none)
+
+/-- related traces contain the same slot invocations -/
+theorem allows_calls {ts tm : List Event} (h : Allows ts tm) : calls ts = calls tm := by
+  induction h with
+  | nil => rfl
+  | @cons a b l m hab _ ih =>
+    cases hab with
+    | same e => simp only [calls, List.filterMap_cons] at ih ⊢; rw [ih]
+    | star d text r => simp only [calls, List.filterMap_cons] at ih ⊢; exact ih
+
+/-- **corollary — which slots are invoked, in which order, nesting and with which arguments, is exactly
+    what the specification says** (snapshot semantics of emission, immediate removal): the sequence of
+    slot invocations of every terminating run of the mechanism model equals that of the specification's
+    run. -/
+theorem refines_calls (fuel : Nat) (P : Prog) (s : St) (h : Model.runTop fuel P {} P.top = some s) :
+    ∃ t, Spec.runTop fuel P { k1 := true, k2 := true } P.top = some t ∧ calls t.trace = calls s.trace :=
+  let ⟨t, ht, hR, _⟩ := refines_state fuel P s h
+  ⟨t, ht, allows_calls hR.trace⟩
+
+example : calls [.res 0 "emit 1 7" "r=void", .call 0 2 7, .res 0 "newG 1 V" "ok"] = [(0, 2, 7)] := rfl
 
 end Sigc.Refine
